@@ -236,7 +236,7 @@ def r14_2(ctx: Ctx) -> None:
 def _ordered_replay(cfg: CFG, func: ast.AST, call: ast.Call) -> bool:
     """ `fresh.add_component(<element>, xs[<position> + 1:])` inside a loop over all of xs from the start (any of the
         spellings of asa.loopview) with fresh = Module() / cls(...) """
-    from ..loopview import view
+    from ..loopview import resolve_alias, view
     loops = [lp for lp in enclosing_loops(call, stop=func) if isinstance(lp, ast.For)]
     if not loops or len(call.args) != 2:
         return False
@@ -249,7 +249,8 @@ def _ordered_replay(cfg: CFG, func: ast.AST, call: ast.Call) -> bool:
     rest = call.args[1]
     base = v.seq[:-len(".components")] if v.seq.endswith(".components") else v.seq
     tail = isinstance(rest, ast.Subscript) and isinstance(rest.slice, ast.Slice) and rest.slice.upper is None \
-        and rest.slice.step is None and rest.slice.lower is not None and txt(rest.value) in (base, f"{base}.components", v.seq) \
+        and rest.slice.step is None and rest.slice.lower is not None \
+        and txt(resolve_alias(func, rest.value)) in (base, f"{base}.components", v.seq) \
         and v.position_plus(rest.slice.lower, 1)
     return fresh and v.is_element(call.args[0], func) and tail
 
